@@ -10,6 +10,7 @@ import (
 	"bytes"
 	"encoding/json"
 	"fmt"
+	"math"
 	"os"
 	"path/filepath"
 	"sort"
@@ -396,7 +397,10 @@ func childBackend(b core.Batch, p params, o *core.Obs) {
 			if r.Chance(1, 6) {
 				fault = r.PickS([]string{"missing-dir", "readonly-dir"})
 			}
-			desc := fmt.Sprintf("maxsize=%d events=%d writers=%d big=%v fault=%s", maxSize, nev, writers, big, fault)
+			// events that cannot be serialised (a NaN value) are sent in between: the channel may drop them, the
+			// events around them it has accepted like any other
+			poison := r.Chance(1, 3)
+			desc := fmt.Sprintf("maxsize=%d events=%d writers=%d big=%v fault=%s unserialisable-events-in-between=%v", maxSize, nev, writers, big, fault, poison)
 			switch fault {
 			case "missing-dir":
 				path = filepath.Join(dir, "no-such-dir", "events.log")
@@ -432,6 +436,9 @@ func childBackend(b core.Batch, p params, o *core.Obs) {
 						done := make(chan struct{})
 						go func() {
 							ch.Send(event.New(event.Custom("stamp", s), event.Custom("pad", strings.Repeat("x", size))))
+							if poison && s%5 == 3 {
+								ch.Send(event.New(event.Custom("unserialisable", math.NaN())))
+							}
 							close(done)
 						}()
 						select {
